@@ -552,6 +552,13 @@ func runC18(c *hc.Ctx) error {
 				g, poly, kind, id, ids = dg, dp, lastDeepKind, did, []int{did}
 			}
 		}
+		if i%12 == 7 { // rings of equal vertex count a few 1e-7 units apart (a set in small units)
+			mg := microGrid()
+			if mp, ok := genMicroNested(c.Rng, mg); ok {
+				g, poly, kind, id = mg, mp, "micro grid (pixel 1e-7): shell, square hole and triangular hole of a few pixels", mg.DeepestID
+				ids = []int{id}
+			}
+		}
 		cfg := randCfg(c.Rng)
 		cfg.IgnoreOutsideGrid = false
 		level := g.Level(id)
